@@ -143,21 +143,14 @@ func checkBranchNodeWithOrConstraint(schemaNode schema.Node, jsonNode schema.Bra
 
 	// Since "req.jschema.rules.or" we didn't allow empty object and arrays for
 	// or with at least one user type.
-	hasUserTypeInOr := false
-
 	c, ok := schemaNode.Constraint(constraint.TypesListConstraintType).(*constraint.TypesList)
 	if !ok {
 		return
 	}
 
-	for _, n := range c.Names() {
-		if n[0] == '@' {
-			hasUserTypeInOr = true
-			break
-		}
-	}
-
-	if hasUserTypeInOr {
+	// Not by the names: a rule-set with a reference and another rule is an
+	// unnamed type.
+	if c.HasUserTypes() {
 		panic(errors.ErrInvalidChildNodeTogetherWithOrRule)
 	}
 }
